@@ -97,7 +97,9 @@ Definition build_copy_for_enum (en : item_enum) (e : entry) (vs : list ventry)
   let this := this_ty_of (e_name en) (e_generics en) in
   let w := wcb_new (e_generics en) in
   let '(w, ub) := entry_push_bounds_to e w in
-  let w := fold_left (fun w v => push_fields (ve_fields v) ub k w) vs w in
+  let w := fold_left (fun w v =>
+                        let '(w, ubv) := push_bounds_to_raw (ve_hattrs v) ub false k w in
+                        push_fields (ve_fields v) ubv k w) vs w in
   Ok [{| ir_hdr := mk_hdr false (e_generics en) k None false this w WFPlain; ir_body := BCopy |}].
 
 (** ** Debug *)
